@@ -240,7 +240,7 @@ CHECKS = {
     'C19': dict(
         text=("C19_once (for EVERY order of the process's output, its exit, the timeout, the control connection's steps and callers' requests, no "
               "when_connected() result — hence no launch result — is delivered twice; invariant by induction), C19_success_needs_100 (a success is preceded by "
-              "a BOOTSTRAP PROGRESS=100 event on a connection whose protocol bootstrap was acknowledged and whose STATUS_CLIENT subscription exists), "
+              "a BOOTSTRAP PROGRESS=100 event on a connection whose STATUS_CLIENT subscription exists), C19_subscription_begins_with_bootstrap (a connection becomes subscribed only by the acknowledgement of its own protocol bootstrap), "
               "C19_no_success_after_failure (once timeout or exit has failed the launch, no later input — not even a late 100 % — nor a later caller sees "
               "success), C19_timeout (TERM, or closing the pipes when the process is gone, and failure), C19_exit (failure, and exactly the listed "
               "directories removed), C19_only_listed_dirs_removed (over any run nothing else is ever removed; a caller-supplied directory is never on the "
